@@ -124,7 +124,12 @@ func famRegs(r *rng) []string {
 		"func g3(n){ s = 0; for i = n { s = s + i }; s }; println(g3(5), g3(5))",
 		"s = 0; for i = 0:4 { f2 = func(){ 1 }; s = s + f2() }; println(s)",
 		"for i = 0:3 { i++; print(i) }; println()",
-		"LIM = 3; func g4(LIM){ LIM }; println(catch(g4(5)).err)"))
+		"LIM = 3; func g4(LIM){ LIM }; println(catch(g4(5)).err)",
+		"i = 100; fq = func(){ s = 0; for i = 4 { s = s + i }; s }; println(fq(), i)",
+		"func g5(){ k = 7; h = func(){ for k = 1:3 { print(k) } }; h(); k }; println(g5())",
+		"i = 100; fq2 = func(){ for i = 3 { print(i) }; i }; println(fq2() + i)",
+		"n = 5; fq3 = func(n){ for n = 2 { print(n) }; n }; println(fq3(9), n)",
+		"a = [10,20,30]; a[-1] = 3; a[-3] = 1; println(a, catch(a[-4] = 0).err)"))
 	return res
 }
 
